@@ -2,6 +2,7 @@ import P2PVerif.Model.Reasm
 import P2PVerif.Model.Mux
 import P2PVerif.Lemmas.MTU
 import P2PVerif.Lemmas.SrcVec
+import P2PVerif.Lemmas.SrcMtu
 /-! # C09 — MTU is honest: anything up to MTU is sendable intact, anything above is refused
 Property theorems only; per layer (fragmenting swarm, message-box swarm, multiplexers, P2PKE framing). The
 constants are regenerated from the source into `Gen.Facts` on every run. -/
@@ -50,5 +51,16 @@ theorem src_VecSize_is_gathered_length (v : List Go.Bytes) :
   ⟨Src.VecSize_eq v, by simpa using Src.VecBytes_eq [] v⟩
 
 example : Src.p2p.VecSize [[1, 2], [], [3]] = .ok 3 := rfl
+
+/-- ⊢ regenerated MTU(): the `MTU` methods of the message-box swarm and of the fragmenting swarm, REGENERATED from
+    p/mbapp/swarm.go and s/fragswarm/fragswarm.go (the inner swarm's `MTU()` and the configured MTU are their inputs),
+    are the models' `mtu` — the very quantity `…_under_mtu_accepted` and `…_over_mtu_rejected` above are stated with:
+    the header sizes and the part-count limits (65535 and 255) in the source are the ones the theorems use. -/
+theorem src_MTU_is_model (innerMTU cfgMTU : Nat) :
+    Src.mbapp.Swarm.MTU (cfgMTU : Int) (innerMTU : Int) = .ok (Mbapp.mtu innerMTU cfgMTU) ∧
+    Src.fragswarm.swarm.MTU (cfgMTU : Int) (innerMTU : Int) = .ok (Frag.mtu innerMTU cfgMTU) :=
+  ⟨Src.mbapp_MTU_eq innerMTU cfgMTU, Src.frag_MTU_eq innerMTU cfgMTU⟩
+
+example : Src.mbapp.Swarm.MTU 100000 25 = .ok 65535 ∧ Src.fragswarm.swarm.MTU 1000 16 = .ok 255 := ⟨rfl, rfl⟩
 
 end P2PVerif.C09
